@@ -47,6 +47,8 @@ def rules(ctx):
     c025(ctx)
     c026(ctx)
     c027(ctx)
+    c028(ctx)
+    c029(ctx)
     from . import C13
     C13.c131(ctx)   # the manifest reader delivers an edit only at its separator (a torn tail is dropped whole)
     C13.c135(ctx)   # an edit is replayed remove-then-add
@@ -540,3 +542,103 @@ def c027(ctx):
             allowed = f.skey.startswith("utilz::") or f.crate == "utilz"
             ctx.check(R, f, "File::create", allowed, "File::create (truncating) only outside store data files",
                       "File::create truncates an existing file in a store crate", pt=pt)
+
+
+# ---------------------------------------------------------------------------------------------------
+# C02.8 what is made durable can be replayed: the entries of one batch have distinct keys before they share one timestamp
+
+SET_INSERT = r"(hash::set::HashSet|btree::set::BTreeSet|hash::map::HashMap|btree::map::BTreeMap).*::insert$"
+
+
+def _uniq_pass(ctx, g):
+    """g filters the entries of a batch down to one entry per key: it inserts each entry's key into a set / map and keeps the entry
+    only on the edge on which the key was new.  Returns (ok, why)."""
+    ins = [pt for pt in P.call_points(g, SET_INSERT)
+           if any(s_["k"] == "field" and s_["f"] == "key" for s_ in P.origins(g, P.term_at(g, pt)["args"][1]))]
+    if not ins:
+        return False, "no set insertion of the entries' keys"
+    pushes = [pt for pt in P.call_points(g, r"alloc::vec::Vec::push$") if "KeyValuePair" in str(P.term_at(g, pt).get("ga"))]
+    if not pushes:
+        return False, "no entry is kept"
+    for pt in pushes:
+        ok = False
+        for bb, lab, srcs in K.guards(g, pt):
+            for s_ in srcs:
+                if s_["k"] == "call" and re.search(SET_INSERT, s_["callee"]) and s_["pt"] in ins:
+                    negs = sum(1 for x in srcs if x["k"] == "un" and x["op"] == "Not")
+                    if (lab != "sw:0") != bool(negs % 2):
+                        ok = True
+        if not ok:
+            return False, "an entry is kept without its key having been new to the set"
+    fw = P.field_writes(g, r"kvs::WriteBatch$", "entries")
+    if not fw:
+        return False, "the filtered entries are not stored back into the batch"
+    return True, "entries are kept only when their key is new to a set, and stored back"
+
+
+def c028(ctx):
+    R = "C02.8"
+    ctx.declare(R, "every entry of a batch gets the same timestamp, so a batch is reduced to one entry per key before it is stamped, logged and inserted: "
+                   "the memtable and log replay require distinct (key, timestamp) pairs")
+    f = ctx.fn(R, KVS + "write")
+    if not f:
+        return
+    ap = ctx.calls(R, f, r"sst::log::ConcurrentLogBuilder.*::append$")
+    mw = ctx.calls(R, f, r"lsmtk::kvs::memtable::MemTable::write$")
+    passes = []
+    why_not = []
+    for b, t in f.calls():
+        for k_ in ctx.prog.targets(t):
+            g = ctx.prog.fns.get(k_)
+            if g is None or g.crate != "lsmtk" or g is f:
+                continue
+            ok, why = _uniq_pass(ctx, g)
+            if ok:
+                passes.append(P.term_pt(f, b.idx))
+            elif P.call_points(g, SET_INSERT):
+                why_not.append("%s: %s" % (g.skey, why))
+    ok_inline, _w = _uniq_pass(ctx, f)
+    good = bool(passes) and not P.order(f, passes, ap + mw)
+    ctx.check(R, f, "one-entry-per-key", good or ok_inline,
+              "the batch is reduced to the last write per key before it reaches the log and the memtable",
+              "KeyValueStore::write stamps every entry of a batch with one timestamp and hands them to the log and the memtable without making the keys "
+              "distinct: a batch that writes one key twice is made durable, then the memtable insert aborts on the duplicate (key, timestamp), and log "
+              "replay rejects it with a sort-order error on every later open%s" % ("; " + "; ".join(why_not) if why_not else ""),
+              pt=ap[0] if ap else None)
+
+
+# ---------------------------------------------------------------------------------------------------
+# C02.9 no explicit panic on the path of an acknowledged write depends on what the client wrote
+
+WRITE_PATH = re.compile(r"^<?(lsmtk::kvs::|skipfree::|sync42::wait_list::|sync42::work_coalescing_queue::|sst::log::)")
+WRITE_EXC = {
+    ("skipfree::SkipList::insert", "panic"):
+        "assert!(existing.is_null() || key != existing key): the keys handed to the memtable are (key, timestamp) pairs; timestamps are unique per batch "
+        "(seq_no + 1 under the state lock, C01.2) and C02.8 shows the keys of one batch are made distinct before they are stamped",
+    ("skipfree::SkipList::new_node", "panic"): "height in 1..=MAX_HEIGHT: produced by random_height, which asserts the same bounds on its own loop variable",
+    ("skipfree::SkipList::random_height", "panic"): "the loop starts at 1 and stops at MAX_HEIGHT",
+    ("skipfree::Node::set_next", "panic"): "level < pointers.len(): levels come from 0..height of the node just built, or from 0..MAX_HEIGHT on the head node",
+    ("skipfree::Node::get_next", "panic"): "level < pointers.len(): searches start at the head (MAX_HEIGHT pointers) and only step onto nodes reached at that level",
+    ("skipfree::Node::cas_next", "panic"): "level < pointers.len(): prev[idx] was found at level idx",
+    ("<sst::log::WriteCoalescingCore as sync42::work_coalescing_queue::WorkCoalescingCore>::batch", "expect(WriteBatch::merge)"):
+        "merge fails only on size; can_batch admitted the pair by the same size computation",
+    ("sst::log::LogBuilder::append", "assert_failed"): "assert_ne!(setsum, default): an empty batch was refused two lines above; a non-empty batch hashing to zero is a 2^-256 event",
+    ("sst::log::LogBuilder::_append", "panic"): "assert!(bytes_written <= nb) after a write that the branch condition new_offset <= nb sized",
+    ("sst::log::LogBuilder::true_up", "panic"): "nb is next_boundary(bytes_written) recomputed by the callers; the distance was compared with HEADER_MAX_SIZE or is what a FIRST frame left",
+    ("sst::log::LogBuilder::write_header", "panic"): "pack_sz of a Header is at most HEADER_MAX_SIZE (+1 length byte): C10.4 computes it from the field table",
+    ("sync42::wait_list::WaitList::_unlink", "panic"): "assert!(linked): a guard is unlinked once (owned flag cleared); internal invariant, not client data",
+    ("sync42::wait_list::WaitList::assert_invariants", "panic"): "head == tail or the head slot is linked: maintained by _unlink's advance loop (C18.2)",
+    ("sync42::wait_list::WaitList::unlink", "panic_fmt"): "assert!(guard.owned): API misuse by the caller inside this workspace; write() unlinks by dropping its own guard",
+    ("sync42::wait_list::Waiter::load", "unwrap(option)"): "the value is Some from initialize until deinitialize, which runs only after the slot left the list",
+    ("sync42::work_coalescing_queue::WorkCoalescingQueue::do_work", "panic"): "assert!(!doing_work), assert!(is_head): leader election invariants (C18.1)",
+    ("sync42::work_coalescing_queue::WorkCoalescingQueue::do_work", "panic_fmt"): "unreachable wait states of the head / leader (C18.1 shows every taken waiter gets an output and the head is never Stolen)",
+}
+
+
+def c029(ctx):
+    R = "C02.9"
+    ctx.declare(R, "no explicit panic reachable from an acknowledged write depends on the client's data: each site is an internal invariant, listed with its reason")
+    fns = [f for f in K.reach_fns(ctx, [KVS + "write", KVS + "put", KVS + "del"], crates=("lsmtk", "sst", "skipfree", "sync42"))
+           if WRITE_PATH.match(f.skey) and not re.search(r"LogIterator|log_to_|truncate_final|KeyValueStore::(open|recover|recover_one|_memtable_thread|memtable_thread|compaction_thread)", f.skey)]
+    ctx.floor(R, "functions on the write path", len(fns), 25)
+    K.panic_audit(ctx, R, fns, WRITE_EXC)
